@@ -5,6 +5,7 @@ import (
 	"fmt"
 	"math"
 	"strconv"
+	"strings"
 	"unsafe"
 
 	"github.com/arnodel/golua/lib/base"
@@ -242,7 +243,14 @@ func quote(v rt.Value) (string, bool) {
 		if math.IsNaN(x) {
 			return "(0/0)", true
 		}
-		return strconv.FormatFloat(x, 'g', -1, 64), true
+		// The shortest decimal representation that reads back as x.
+		s := strconv.FormatFloat(x, 'g', -1, 64)
+		if !strings.ContainsAny(s, ".e") {
+			// Without this it would read back as an integer (and -0.0 would
+			// lose its sign).
+			s += ".0"
+		}
+		return s, true
 	case rt.BoolType:
 		return strconv.FormatBool(v.AsBool()), true
 	case rt.StringType:
